@@ -105,18 +105,38 @@ type rwState struct {
 func rnsBidKey(bidder, name string) string { return bidder + "|" + name }
 
 type RW struct {
-	rc   *RunCtx
-	c    *chain.Chain
-	st   *rwState
-	esc  map[string]sdk.Coins // model escrow ledger per bidder|name (net coins moved into the module for that bid)
-	escN map[string]int       // number of accepted bid messages since the last cancel/accept of that key
-	escL map[string]sdk.Coin  // last accepted bid of that key
-	prev map[string][]string  // previous owners per name, most recent last
-	mod  string
-	pol  string
-	seen map[string]bool
-	line []string // short step log (sample)
-	who  map[string]string
+	rc     *RunCtx
+	c      *chain.Chain
+	st     *rwState
+	esc    map[string]sdk.Coins // model escrow ledger per bidder|name (net coins moved into the module for that bid)
+	escN   map[string]int       // number of accepted bid messages since the last cancel/accept of that key
+	escL   map[string]sdk.Coin  // last accepted bid of that key
+	prev   map[string][]string  // previous owners per name, most recent last
+	mod    string
+	pol    string
+	seen   map[string]bool
+	line   []string // short step log (sample)
+	who    map[string]string
+	pgTick int
+}
+
+// paging: a client paging through the listings this property is about sees what the one-shot listings show (paging.go)
+func (w *RW) paging() {
+	w.pgTick++
+	mk := func(rpc string, req func() codec.ProtoMarshaler, resp codec.ProtoMarshaler) listQuery {
+		return listQuery{Path: "/canine_chain.rns.Query/" + rpc, Req: req, Resp: resp}
+	}
+	var qs []listQuery
+	switch w.rc.Prop {
+	case "C09":
+		qs = append(qs, mk("AllBids", func() codec.ProtoMarshaler { return &rnstypes.QueryAllBids{} }, &rnstypes.QueryAllBidsResponse{}))
+	case "C08":
+		qs = append(qs, mk("AllForSale", func() codec.ProtoMarshaler { return &rnstypes.QueryAllForSale{} }, &rnstypes.QueryAllForSaleResponse{}),
+			mk("AllNames", func() codec.ProtoMarshaler { return &rnstypes.QueryAllNames{} }, &rnstypes.QueryAllNamesResponse{}))
+	case "C16":
+		qs = append(qs, mk("AllNames", func() codec.ProtoMarshaler { return &rnstypes.QueryAllNames{} }, &rnstypes.QueryAllNamesResponse{}))
+	}
+	checkPaging(w.rc, w.c, qs, w.pgTick)
 }
 
 func rnsShort(a string) string {
@@ -389,6 +409,7 @@ func (w *RW) Block() bool {
 		w.checkEscrowInvariant(post, "after BeginBlock")
 	}
 	w.st = post
+	w.paging()
 	return true
 }
 
